@@ -24,7 +24,8 @@ package fsloop
 //@   field lifecycle immutable
 //@   field pool immutable
 //@   field loopData immutable
-//@ func (*Consumer).Loop [C04]
+//@   field path immutable
+//@ func (*Consumer).Loop [C04 C08]
 //@   layers contract trace
 //@   requires consumer != nil && consumer.loopData != nil && consumer.lifecycle != nil && consumer.pool != nil
 //@   trace dynamic.LoopData.OnDir as ONDIR bind de
@@ -38,42 +39,88 @@ package fsloop
 //@   at_call (*Lifecycle).Error requires len($1) == 1 && ($1[0] == de || $1[0] == fe) && $1[0] != nil
 //@   trace_ensures !isk : STEP LEN LEN $
 //@   ensures !isk ==> stp == 999
+// (C08) a callback gets the walk's filespace and exactly the path that was dequeued, and a pass
+// runs at most one directory callback and one file callback (the deferred pool.Done is outside
+// the paths that start at the loop head: not under contract)
+//@   at_call dynamic.LoopData.OnDir requires $0 == consumer.loopData.Filespace && $1 == row
+//@   at_call dynamic.LoopData.OnFile requires $0 == consumer.loopData.Filespace && $1 == row
+//@   loop 1 trace_step [C08] true : ^(?:KILLED |STEP |LEN |REPORT )*(?:ONDIR )?(?:KILLED |STEP |LEN |REPORT )*(?:ONFILE )?(?:KILLED |STEP |LEN |REPORT )*$
 
 // a listing error of the producer is reported
-//@ func (*Producer).Loop [C04]
+//@ func (*Producer).Loop [C04 C08]
 //@   layers contract trace
 //@   requires producer != nil && producer.loopData != nil && producer.lifecycle != nil && producer.pool != nil && producer.loopData.Filespace != nil
 //@   trace Filespace.ReadDir as READDIR bind rd
 //@   trace (*Lifecycle).Error as REPORT
-//@   trace_ensures rd.1 != nil : ^READDIR REPORT $
+//@   trace_ensures rd.1 != nil : ^READDIR REPORT RELEASE $
 //@   at_call (*Lifecycle).Error requires len($1) == 1 && $1[0] == rd.1 && $1[0] != nil
-//@ func (*Producer).processDir [C04]
+// (C08) a producer lists its own path once, walks that listing with its path as base, and gives
+// its slot back last (after everything it enqueues or spawns)
+//@   trace (*Producer).processList as LIST
+//@   trace (*Pool).Done as RELEASE
+//@   at_call Filespace.ReadDir requires $recv == producer.loopData.Filespace && $0 == producer.path
+//@   at_call (*Producer).processList requires $0 == producer && $1 == producer.path && $2 == rd.0
+//@   at_call (*Pool).Done requires $0 == producer.pool
+//@   trace_ensures [C08] rd.1 == nil : ^READDIR LIST RELEASE $
+
+// A directory is walked exactly once: either by this goroutine (no free slot: list it and walk
+// the listing with base path dir + "/") or by exactly one new producer for dir + "/" that shares
+// the lifecycle, pool and configuration and whose slot was reserved BEFORE it was started (so
+// the pool cannot drain while the directory is pending). A failed listing is reported.
+//@ func (*Producer).processDir [C04 C08]
 //@   layers contract trace
+//@   keeps stable
 //@   requires producer != nil && producer.loopData != nil && producer.lifecycle != nil && producer.pool != nil && producer.loopData.Filespace != nil
 //@   trace Filespace.ReadDir as READDIR bind rd
 //@   trace (*Lifecycle).Error as REPORT
+//@   trace (*Pool).Add as RESERVE bind slots
+//@   trace (*Producer).processList as LIST
+//@   trace go:(*Producer).Loop as SPAWN
 //@   trace_ensures bound(rd) && rd.1 != nil : READDIR REPORT $
 //@   at_call (*Lifecycle).Error requires len($1) == 1 && $1[0] == rd.1 && $1[0] != nil
+//@   at_call (*Pool).Add requires $0 == producer.pool && $1 == 1
+//@   at_call Filespace.ReadDir requires $recv == producer.loopData.Filespace && $0 == nodePath
+//@   at_call (*Producer).processList requires $0 == producer && $1 == cat(nodePath, "/") && $2 == rd.0
+//@   at_call (*Producer).Loop requires $0 != producer && $0.path == cat(nodePath, "/") && $0.loopData == producer.loopData && $0.pool == producer.pool && $0.lifecycle == producer.lifecycle
+//@   trace_ensures [C08] slots == 0 && rd.1 == nil : ^RESERVE READDIR LIST $
+//@   trace_ensures [C08] slots == 0 && rd.1 != nil : ^RESERVE READDIR REPORT $
+//@   trace_ensures [C08] slots != 0 : ^RESERVE SPAWN $
 
 // the completion goroutine: the close step is announced after the producer pool has drained
-//@ func (*Loop).Run$1 [C04]
-//@   layers trace
+//@ func (*Loop).Run$1 [C04 C08]
+//@   layers contract trace
 //@   trace (*Pool).Wait as DRAINED
 //@   trace (*Lifecycle).NextStep as CLOSESTEP
+//@   trace builtin.close as CLOSECHAN
 //@   trace_ensures true : ^DRAINED CLOSESTEP
+//@   trace_ensures [C08] true : ^DRAINED CLOSESTEP CLOSECHAN CLOSECHAN $
+//@   at_call (*Lifecycle).NextStep requires $1 == 999
 
 // Run gives the loop a lifecycle with a context; only this package assigns the field
 //@ type Loop
 //@   field lifecycle stable
 //@   field consumerPool stable
-//@ func (*Loop).Run [C04]
-//@   layers contract
+//@ func (*Loop).Run [C04 C08]
+//@   layers contract trace
 //@   requires loop != nil && loop.loopData != nil
 //@   modifies *
 //@   ensures loop.lifecycle != nil
 //@   ensures loop.lifecycle.ctx != nil
 //@   ensures loop.consumerPool != nil
 //@   loop 1 invariant loop == old(loop) && loop.lifecycle != nil && loop.lifecycle.ctx != nil && loop.consumerPool != nil
+// (C08) one root producer whose slot is reserved before it starts; as many consumers as slots
+// the consumer pool handed out (one per pass, sharing lifecycle, pool and configuration), which
+// is at most the pool's size; the completion goroutine is started last
+//@   trace go:(*Producer).Loop as SPAWNP
+//@   trace go:(*Consumer).Loop as SPAWNC
+//@   trace go:(*Loop).Run$1 as SPAWNCLOSER
+//@   trace (*Pool).Add as RESERVE bind slots
+//@   at_call (*Producer).Loop requires $0.lifecycle == loop.lifecycle && $0.loopData == loop.loopData && $0.path == path
+//@   at_call (*Consumer).Loop requires $0.lifecycle == loop.lifecycle && $0.loopData == loop.loopData && $0.pool == loop.consumerPool
+//@   loop 1 trace_step [C08] true : ^SPAWNC $
+//@   loop 1 step [C08] i == prev(i) + 1
+//@   loop 1 invariant [C08] 0 <= i && consumer.lifecycle == loop.lifecycle && consumer.pool == loop.consumerPool && consumer.loopData == loop.loopData
+//@   trace_ensures [C08] true : SPAWNCLOSER $
 // Wait changes nothing itself; what the walking goroutines report meanwhile is in the frame
 //@ func (*Loop).Wait [C04]
 //@   layers contract
@@ -88,3 +135,53 @@ package fsloop
 //@   at_call (*Lifecycle).Errors requires $0 == loop.lifecycle
 //@   trace_ensures true : ^LERRS $
 //@   ensures result == le
+
+// ---- C08: the concurrent tree walk, goroutine by goroutine ----
+// What is machine-checked is each goroutine's own protocol; that the protocols together give
+// "every selected node exactly once, then stop" under every interleaving is the rely/guarantee
+// argument of /verif/DESIGN.md 11.10 (on paper).
+//
+// The walk's configuration is fixed once the loop exists (callbacks do not rewrite it: A-PRIV).
+//@ type LoopData
+//@   field Filespace stable
+//@   field FileFilter stable
+//@   field DirFilter stable
+//@   field OnFile stable
+//@   field OnDir stable
+//@   private chans.dirChan
+//@   private chans.fileChan
+
+// One pass of the listing loop handles exactly the next entry: "." and ".." are skipped; a
+// directory is offered to the directory filter (if any), and only when accepted is it enqueued
+// (if there is a directory callback) and descended into; a file is enqueued when there is a
+// file callback and the file filter (if any) accepts it; nothing else is enqueued, and every
+// enqueued or descended path is base + name of that entry.
+//@ func (*Producer).processList [C08]
+//@   layers contract trace
+//@   keeps stable
+//@   requires producer != nil && producer.loopData != nil && producer.lifecycle != nil && producer.pool != nil && producer.loopData.Filespace != nil
+//@   trace FileInfo.IsDir as ISDIR bind isdir
+//@   trace dynamic.LoopData.DirFilter as DIRFILTER bind df
+//@   trace dynamic.LoopData.FileFilter as FILEFILTER bind ff
+//@   trace chan.send.Chans.dirChan as SENDDIR
+//@   trace chan.send.Chans.fileChan as SENDFILE
+//@   trace (*Producer).processDir as DESCEND bind killed
+//@   trace (*Lifecycle).IsKilled as KILLED
+//@   loop 1 invariant -1 <= $i && $i < len(readDir)
+//@   loop 1 step $i == prev($i) + 1
+//@   loop 1 trace_step Name($v) == "." || Name($v) == ".." : ^$
+//@   loop 1 trace_step Name($v) != "." && Name($v) != ".." && isdir && producer.loopData.DirFilter != nil && !df : ^ISDIR DIRFILTER $
+//@   loop 1 trace_step Name($v) != "." && Name($v) != ".." && isdir && producer.loopData.DirFilter != nil && df && producer.loopData.OnDir != nil : ^ISDIR DIRFILTER SENDDIR DESCEND $
+//@   loop 1 trace_step Name($v) != "." && Name($v) != ".." && isdir && producer.loopData.DirFilter != nil && df && producer.loopData.OnDir == nil : ^ISDIR DIRFILTER DESCEND $
+//@   loop 1 trace_step Name($v) != "." && Name($v) != ".." && isdir && producer.loopData.DirFilter == nil && producer.loopData.OnDir != nil : ^ISDIR SENDDIR DESCEND KILLED $
+//@   loop 1 trace_step Name($v) != "." && Name($v) != ".." && isdir && producer.loopData.DirFilter == nil && producer.loopData.OnDir == nil : ^ISDIR DESCEND KILLED $
+//@   loop 1 trace_step Name($v) != "." && Name($v) != ".." && !isdir && producer.loopData.OnFile == nil : ^ISDIR $
+//@   loop 1 trace_step Name($v) != "." && Name($v) != ".." && !isdir && producer.loopData.OnFile != nil && producer.loopData.FileFilter != nil && !ff : ^ISDIR FILEFILTER $
+//@   loop 1 trace_step Name($v) != "." && Name($v) != ".." && !isdir && producer.loopData.OnFile != nil && producer.loopData.FileFilter != nil && ff : ^ISDIR FILEFILTER SENDFILE KILLED $
+//@   loop 1 trace_step Name($v) != "." && Name($v) != ".." && !isdir && producer.loopData.OnFile != nil && producer.loopData.FileFilter == nil : ^ISDIR SENDFILE KILLED $
+//@   at_call FileInfo.IsDir requires $recv == $v
+//@   at_call chan.send.Chans.dirChan requires $0 == producer.loopData.chans.dirChan && $1 == cat(basePath, Name($v))
+//@   at_call chan.send.Chans.fileChan requires $0 == producer.loopData.chans.fileChan && $1 == cat(basePath, Name($v))
+//@   at_call (*Producer).processDir requires $0 == producer && $1 == cat(basePath, Name($v))
+//@   at_call dynamic.LoopData.DirFilter requires $0 == producer.loopData.Filespace && $1 == cat(basePath, Name($v))
+//@   at_call dynamic.LoopData.FileFilter requires $0 == producer.loopData.Filespace && $1 == cat(basePath, Name($v))
